@@ -577,8 +577,13 @@ def replay_c(payload):
                         "precondition_met_by_model_input": msg is not None, "observed": bad,
                         "expected": "wire == hdlc_wire frames (lowest DLCI first), deliveries == the messages sent, no sanitizer report",
                         "script_head": [s[:80] for s in script[:6]], "cmd": h.cmd}
-        return {"confirmed": False, "precondition_met_by_model_input": msg is not None,
-                "note": "%d scenarios inside the statement's quantifier behaved as prescribed" % tried, "cmd": h.cmd}
+        res = {"confirmed": False, "precondition_met_by_model_input": msg is not None,
+               "note": "%d scenarios inside the statement's quantifier behaved as prescribed" % tried, "cmd": h.cmd}
+        if msg is None:
+            # a counter-model of a step contract (a receiver / transmitter state) or one outside the quantifier was NOT executed: the scenarios
+            # above are a search, not a refutation of this counter-model
+            res["error"] = "counter-model not executed natively (a step-level state or a message outside the statement's quantifier); %d seeded scenarios behaved as prescribed" % tried
+        return res
 
 
 replay = replay_c
